@@ -280,8 +280,8 @@ class C14(Check):
             'index, positional and source= call styles, CSV (with/without header, by index / header), ARFF dense and sparse (nominal / numeric / string '
             'label attribute, by header / index, every position), LibSVM, Manik (single and comma-separated labels)}; take in {None,0,1,2,N,N+1} for every '
             'source delivery; enumerated exhaustively, fewest examples first. Every case is read twice from fresh objects (SupervisedSimulation.read and '
-            'Environments.from_supervised(...)[0].read). A case is non-trivial when at least one interaction was produced and completely compared '
-            '(context, rewards, actions) and, for classification, the delivered examples carry >=2 distinct labels')
+            'Environments.from_supervised(...)[0].read). A case is non-trivial when the real code produced at least one interaction (which is then compared '
+            'completely: context, rewards, actions) and, for classification, the delivered examples carry >=2 distinct labels')
     ASSUMPTIONS = [
         'order of the action list is not constrained (only: one list, identical on every interaction, no duplicates)',
         'Categorical labels: the declared levels count as the labels of the data, i.e. the action set must contain every distinct label and only declared levels (sparse ARFF: plus the level "0" that the ARFF reader adds on purpose)',
@@ -314,7 +314,7 @@ class C14(Check):
             for d, f, w, col, by, lab in self.shapes(tier):
                 ncodes = 8 if lab in MULTI else 3
                 codes = [c for c in range(ncodes) if not (d in ('libsvm', 'manik') and lab in MULTI and not MSETS[c])]
-                if lab in MULTI and n == 4 and d not in ('xy', 'libsvm'): continue
+                if lab in MULTI and n == 4 and d not in ('xy', 'pairs', 'rows', 'srows', 'libsvm', 'manik'): continue
                 for lt in LABEL_TYPES[lab]:
                     for take in (takes if d != 'xy' else [None]):
                         if n == 0:
@@ -420,7 +420,7 @@ class C14(Check):
             results[level] = best.v
             if level == 'raw':
                 ndist = len({repr(labs[j]) for j in idx})
-                if best.checked and not best.v and (best.kind != 'c' or ndist >= 2): acc.mark_nontrivial()
+                if got and (kinds[0] != 'c' or ndist >= 2): acc.mark_nontrivial()
                 acc.outcome((d, lab, lt, len(got), repr(got[0]['actions']) if got and isinstance(got[0], dict) and 'actions' in got[0] else None))
         # an envs-level finding is reported only when the raw read of the same case is clean (one root cause, one key)
         report = results['raw'] or results['envs']
@@ -432,9 +432,6 @@ class C14(Check):
         d, lab, lt = case['d'], case['lab'], case['lt']
         take = case.get('take')
         K = lambda mode, extra=None: f'{comp}|{mode}|{extra if extra is not None else feat}'
-        tk = 'no take' if take is None else 'take'
-        if len(got) != len(idx):
-            rec.violation(K('wrong number of interactions', f'{feat} {tk}'), f'{len(got)} interactions for {len(idx)} expected examples: {case}'); return
         for k, it in enumerate(got):
             if not isinstance(it, dict) or not all(x in it for x in ('context', 'actions', 'rewards')):
                 rec.violation(K('interaction lacks context/actions/rewards'), f'interaction {k}: {it!r}'); return
@@ -445,14 +442,24 @@ class C14(Check):
             if problem:
                 rec.violation(K(problem), f'interaction {k} of {case}'); return
             mats.append((form, val))
+
+        def which(form, val, prefer):
+            cands = ([prefer] if prefer is not None else []) + [j for j in range(len(feats)) if j != prefer]
+            for j in cands:
+                if form == expected_form(feats[j]) and val == feats[j]: return j
+            return None
+        got_idx = [which(form, val, idx[k] if k < len(idx) else None) for k, (form, val) in enumerate(mats)]
+        if None not in got_idx and got_idx != idx:
+            if take is None:
+                rec.violation(K('interactions are not the examples in their order'), f'interactions show examples {got_idx}, expected {idx}: {case}')
+            else:
+                rec.violation(K('interactions are not the seeded reservoir sample in its order', 'take given'), f'interactions show examples {got_idx}, pipes.Reservoir(take) gives {idx}: {case}')
+            return
+        if len(got) != len(idx):
+            rec.violation(K('wrong number of interactions'), f'{len(got)} interactions for {len(idx)} expected examples: {case}'); return
         exp_ctx = [feats[j] for j in idx]
         for k, ((form, val), e) in enumerate(zip(mats, exp_ctx)):
             if form == expected_form(e) and val == e: continue
-            # classify
-            vals = [m[1] for m in mats]
-            if all(m[0] == expected_form(x) for m, x in zip(mats, exp_ctx)) and sorted(map(repr, vals)) == sorted(map(repr, exp_ctx)):
-                rec.violation(K('interactions not in the order of the ' + ('examples' if take is None else 'reservoir sample'), f'{feat} {tk}'),
-                              f'contexts {vals}, expected {exp_ctx}: {case}'); return
             j = idx[k]
             rawlab = label_value(lab, case['ys'][j])
             inside = (isinstance(val, dict) and len(val) == len(e) + 1 and all(val.get(a) == b for a, b in e.items())) if isinstance(e, dict) else \
